@@ -12,6 +12,42 @@ NOTE = ("Trusted base (repeated in each evidence file): pyvc's symbolic semantic
         "eleven built-in GridObject classes, ownership (no grid object reachable twice), partial correctness only, floats as reals.")
 
 CLAIMS = {
+    'C01': dict(
+        text="Proof: every built-in transition keeps the state in the declared space and never raises (closure_* contracts: "
+             "`declared` is an arbitrary predicate on objects closed under box opening and door opening, so the result holds for "
+             "every type/colour space; shape preserved, agent inside the grid, held item declared), chain / "
+             "transition_with_copy / GridWorld.functional_step wiring with opaque components (illegal actions raise ValueError "
+             "before anything is called and change nothing; only debug checks can raise otherwise), every reward/termination "
+             "component is total on such states, the observation of a state lies in the observation space "
+             "(observation_stays_in_its_space), and StateSpace/ObservationSpace/ActionSpace.contains accept exactly the "
+             "conforming values (symbolic spaces: 11 symbolic classes, 5 symbolic colours). Bounded: dijkstra.",
+        design='5/C01'),
+    'C02': dict(
+        text="Proof of the per-call facts the reproducibility argument rests on: every component draws only from the generator it "
+             "is passed (draw counts; implicit clause: no module-level state written, no generator created and drawn from, no "
+             "dependence on set iteration order / identity), composites and GridWorld thread exactly their generator "
+             "(chain, delegation and functional_* wiring contracts, set_seed), the debug flag only gates raises. Native replay of "
+             "hash-order dependence re-runs the real function under different PYTHONHASHSEED values; every native contract run "
+             "also snapshots numpy.random / random / the library generator. The induction over histories and numpy's "
+             "'a Generator is a function of its seed' are stated assumptions.",
+        design='5/C02'),
+    'C03': dict(
+        text="Proof: purity (deep structural equality of state / next state / observation input before and after) and no-draw "
+             "for every reward, termination, observation and visibility function; transition_with_copy copies first, runs the "
+             "transition on the copy only and returns it; from_visibility builds a fresh observation grid; equality is an "
+             "equivalence on (type, status, colour) and equal objects hash alike; implicit clause: no global state written "
+             "(history independence). Assumed: pickle round trip in fast_copy yields a structurally equal disjoint copy; "
+             "lru_cache transparency for dijkstra / rays (callers proved not to write to the cached results' cells is covered "
+             "by the write barrier of the loop rules).",
+        design='5/C03'),
+    'C13': dict(
+        text="Proof + labelled bounded parts. Proved for symbolic shapes and every generator outcome: empty, keydoor, teleport, "
+             "memory, dynamic_obstacles (well-formed: requested shape, unbroken wall boundary, agent inside on a free cell that is "
+             "not exit/obstacle/telepod, empty-handed; inventories as advertised; ValueError and only ValueError for parameters "
+             "that cannot be honoured), with the design.py drawing helpers verified against cell-exact contracts (loop "
+             "invariants). Obstacle counts are evaluated natively only. rooms, memory_rooms and crossing (numpy.linspace, "
+             "shuffles) are evaluated natively only on random parameters: bounded stand-ins, not proof.",
+        design='5/C13'),
     'C04': dict(
         text="Proof: contracts on InnerEnv.reset/step/state/observation (executed on a GridWorld whose functional_* methods are "
              "opaque stubs with a ghost call trace) and on OuterEnv.reset/step/state/observation: state replaced through the "
